@@ -238,6 +238,10 @@ def run(ctx: Ctx) -> int:
     # code -> spec: corpus + mutated corpus
     rng = random.Random(ctx.seed)
     texts = [t for _, t in corpus.expressions()]
+    # the literal words in every position where a name could stand: they are literals there too ("always literals"), so these are syntax errors --
+    # and as the receiver of a selection they are ordinary primaries
+    for w in ("true", "false", "null"):
+        texts += [t % w for t in ("a.%s", "a.%s(1)", ".%s", ".%s(1)", "%s(1)", "M{%s: 1}", "a.%s.b", "a.b.%s", "[a.%s]", "a ? b.%s : c", "%s.a", "[%s]", "x.%sy", "%s_.a", "a.%s_")]
     muts = []
     ops = ["||", "&&", "==", "!=", "<", "<=", ">", ">=", " in ", "+", "-", "*", "/", "%", "?", ":", "!", ".", "(", ")", "[", "]", ","]
     for _ in range(300 if q else 6000):
